@@ -144,11 +144,16 @@ func (r *replicator) GetQueue() []cid.Cid {
 	r.muProcess.Lock()
 	defer r.muProcess.Unlock()
 
-	fetching := make([]cid.Cid, r.queue.Len())
-	i := 0
-	for c := range r.tasks {
-		fetching[i] = c
-		i++
+	// the hashes that were requested but are not fetched yet
+	fetching := []cid.Cid{}
+	for c, state := range r.tasks {
+		if state != stateFetched {
+			fetching = append(fetching, c)
+		}
+	}
+
+	for c := range r.failed {
+		fetching = append(fetching, c)
 	}
 
 	return fetching
